@@ -270,6 +270,8 @@ func rcErr(err error) string {
 		return "err:meta"
 	case strings.Contains(err.Error(), "no connection available"):
 		return "err:noconn"
+	case strings.Contains(err.Error(), "has no bound value"):
+		return "err:values"
 	}
 	return "err:marshal"
 }
